@@ -226,33 +226,26 @@ def ok (s : State) : Bool := linksOk s && stoppedOk s && setsOk s
 
 /-! ### predicates over two consecutive snapshots (history clauses of the property) -/
 
-/-- the actors reachable from `pending` through child sets (worklist, `fuel` iterations) -/
-def descList (s : State) : Nat → List Nat → List Nat → List Nat
-  | 0, _, acc => acc
-  | _ + 1, [], acc => acc
-  | f + 1, x :: rest, acc =>
-    if acc.contains x then descList s f rest acc
-    else descList s f ((match s.kids x with | some ks => ks | none => []) ++ rest) (acc ++ [x])
-
-/-- all actors linked beneath `a` (and `a` itself) in snapshot `s` -/
-def subtree (s : State) (a : Nat) : List Nat := descList s (2 * s.n + 2 + totalKids s s.n) [a] []
-
 /-- "when an actor exits, every actor linked beneath it at that moment, transitively, reaches
-Stopped": every actor that is Stopped in `cur` and was not in `prev` has its whole `prev`-subtree
-Stopped in `cur` (evaluated at quiescent points). -/
+Stopped" at quiescent points, in edge form: every actor that is Stopped in `cur` and was not in `prev`
+has all its `prev`-children Stopped in `cur`.  (Given `ok prev` a child of a live actor is itself live
+in `prev`, so it is then newly stopped too and the clause propagates down the whole subtree.) -/
 def subtreeOk (prev cur : State) : Bool :=
   (List.range prev.n).all fun a =>
     !(cur.status a == .stopped && prev.status a != .stopped) ||
-      (subtree prev a).all (fun x => cur.status x == .stopped)
+      ((prev.kids a).getD []).all (fun x => cur.status x == .stopped)
+
+/-- every child `a` has in `cur` it already had in `prev` -/
+def kidsSubOk (prev cur : State) (a : Nat) : Bool :=
+  match cur.kids a with
+  | some ks => ks.all (fun c => ((prev.kids a).getD []).contains c)
+  | none => true
 
 /-- a draining / stopping / stopped actor never gains children nor a supervisor -/
 def gainOk (prev cur : State) : Bool :=
   (List.range prev.n).all fun a =>
     decide ((prev.status a).toNat < Status.draining.toNat) ||
-      ((match cur.kids a with
-        | some ks => ks.all (fun c => match prev.kids a with | some ps => ps.contains c | none => false)
-        | none => true)
-       && (cur.sup a == none || cur.sup a == prev.sup a))
+      (kidsSubOk prev cur a && (cur.sup a == none || cur.sup a == prev.sup a))
 
 /-! ### macro layer: what the E-LTS harness executes at quiescent points
 
@@ -339,5 +332,8 @@ def mstep (fixed : Bool) (m : MState) : MOp → MState × Res
   | .kill a => if m.alive a then (exitM fixed m a, .unit) else (m, .unit)
   | .fail a => if m.alive a && !(m.act a).busy then (exitM fixed m a, .unit) else (m, .unit)
   | .abort a => if m.alive a then (exitM fixed m a, .unit) else (m, .unit)
+
+/-- a macro run: what one case of the E-LTS harness is -/
+def mrun (fixed : Bool) (m : MState) (ops : List MOp) : MState := ops.foldl (fun m op => (mstep fixed m op).1) m
 
 end Tree
